@@ -13,8 +13,11 @@ import (
 	"flag"
 	"fmt"
 	"io"
+	"os"
+	"os/exec"
 	"sort"
 	"strings"
+	"time"
 
 	"github.com/canopy-network/canopy/fsm"
 	"github.com/canopy-network/canopy/lib"
@@ -24,12 +27,13 @@ import (
 )
 
 type stats struct {
-	Cases    int            `json:"cases"`
-	Distinct int            `json:"distinct_nontrivial"`
-	Images   int            `json:"crash_images"`
-	ByHeight map[string]int `json:"images_by_recovered_height"`
-	Continue int            `json:"continuations_checked"`
-	Samples  []string       `json:"samples"`
+	Cases             int            `json:"cases"`
+	Distinct          int            `json:"distinct_nontrivial"`
+	Images            int            `json:"crash_images"`
+	ByHeight          map[string]int `json:"images_by_recovered_height"`
+	Continue          int            `json:"continuations_checked"`
+	ConcurrentCommits int            `json:"commits_verified_while_other_stores_over_the_database_were_reset"`
+	Samples           []string       `json:"samples"`
 }
 
 var st = &stats{ByHeight: map[string]int{}}
@@ -99,7 +103,13 @@ func main() {
 	stride := flag.Int("stride", 257, "distance in bytes between crash points in the write-ahead log")
 	outDir := flag.String("outdir", ".", "output directory")
 	_ = flag.String("replay", "", "replay file (cases regenerate deterministically from the seed)")
+	concChild := flag.Bool("concurrent-child", false, "internal: run the concurrent-copies scenario and exit")
 	flag.Parse()
+	if *concChild {
+		concurrentCopies(*outDir, 4*time.Second)
+		fmt.Printf("commits=%d\n", st.ConcurrentCommits)
+		return
+	}
 	r := sim.NewRng(sim.SeedFromEnv())
 	cw := &sim.CaseWriter{OutDir: *outDir, Name: "c09", Imports: "From V Require Import Commit.", CaseType: "img_case", MFun: "img_mismatches", VFun: "img_violations", PerShard: 400}
 	const dir = "db"
@@ -246,6 +256,19 @@ func main() {
 			st.ByHeight[fmt.Sprint(h)]++
 		}
 		n.Close()
+	}
+	// in a child process: a corrupted write batch makes pebble call Logger.Fatalf, which exits the process
+	child := exec.Command(os.Args[0], "-concurrent-child", "-outdir", *outDir)
+	child.Env = os.Environ()
+	if out, cerr := child.CombinedOutput(); cerr != nil {
+		tail := string(out)
+		if len(tail) > 600 {
+			tail = tail[len(tail)-600:]
+		}
+		sim.Direct(*outDir, map[string]any{"finding": "process-dies-under-concurrent-store-copies", "kind": "the process committing blocks exited while other stores over the same database were reset concurrently",
+			"exit": cerr.Error(), "output_tail": tail})
+	} else {
+		fmt.Sscanf(string(out), "commits=%d", &st.ConcurrentCommits)
 	}
 	cw.Close(st)
 	fmt.Printf("c09: %d crash images, recovered heights %v, %d continuations\n", st.Images, st.ByHeight, st.Continue)
